@@ -102,6 +102,8 @@ func backendProp(b backendSpec, meaning string) propFunc {
 		r.Clauses = append(r.Clauses, irFieldReadClause)
 		c.runIRFieldRead(r, "irfield.read", b.Name, irFieldReadExceptions)
 		r.floor("irfield.read."+b.Name, 90)
+		c.runIRFieldReadSel(r, "irfield.decl", b.Name, irFieldReadExceptions, irDeclStructs)
+		r.floor("irfield.decl."+b.Name, 25)
 		r.Clauses = append(r.Clauses, shallowWalkerClause)
 		c.runShallowWalker(r, "walker.shallow", inPkgs(b.Name), shallowWalkerExceptions)
 		r.floor("walker.shallow", 2)
@@ -223,7 +225,7 @@ var parenPostfixExceptions = map[string]string{
 	"msl/internal/codegen.Writer.writeAccessIndex:access.Base->[%d].inner#1": "the base is a binding array (isBindingArray); never a Binary / Select / ArrayLength expression",
 }
 
-const irFieldReadClause = "IR fields reach the output (E61): for every IR expression / statement kind the backend mentions, each field of the kind is read somewhere in the backend - a field nobody reads cannot influence the output"
+const irFieldReadClause = "IR fields reach the output (E61): for every IR expression / statement kind the backend mentions, and for the declaration structs (GlobalVariable, LocalVariable, FunctionArgument, FunctionResult, StructMember, Override, SwitchCase, the scalar / vector / matrix / array / atomic / image / sampler types), each field is read somewhere in the backend - a field nobody reads cannot influence the output"
 
 var resultPlaceholder = "result placeholder: the value is produced by the statement that names this expression as its Result (the statement's own Fun / Function / operands say the same thing)"
 
@@ -240,6 +242,11 @@ var irFieldReadExceptions = map[string]string{
 	"msl:ExprAtomicResult.Comparison":           resultPlaceholder,
 	"msl:ExprCallResult.Function":               resultPlaceholder,
 	"msl:ExprSubgroupOperationResult.Type":      resultPlaceholder,
+	"spirv:SamplerType.Comparison":              "SPIR-V has one OpTypeSampler; comparison sampling is chosen by the Dref image instructions, from ExprImageSample.DepthRef",
+	"msl:SamplerType.Comparison":                "MSL has one sampler type; comparison sampling is chosen by sample_compare, from ExprImageSample.DepthRef",
+	"hlsl:ImageType.StorageAccess":              "every storage texture is an RWTexture (as in Rust naga); the access mode only restricts what WGSL lets the program do",
+	"msl:GlobalVariable.Access":                 "constness of a device buffer reference is derived from the uses of the variable, not from the declared access",
+	"glsl:ArrayType.Stride":                     "GLSL has no stride syntax: element strides come from the block's std140 / std430 layout qualifier",
 	"glsl:ExprAtomicResult.Ty":                  resultPlaceholder,
 	"glsl:ExprAtomicResult.Comparison":          resultPlaceholder,
 	"glsl:ExprSubgroupOperationResult.Type":     resultPlaceholder,
